@@ -8,7 +8,7 @@ p = next(json.loads(l) for l in open('/verif/properties.jsonl') if json.loads(l)
 prev = []
 for m in sorted(glob.glob(f'/verif/seeded/{pid}-*/meta.json')):
     prev.append(json.load(open(m))['summary'])
-tpl = open('/tmp/mut/prompt_c12b.txt').read() if os.path.exists('/tmp/mut/prompt_c12b.txt') else None
+os.makedirs('/tmp/mut', exist_ok=True)
 head = f"""You are helping to evaluate verification tooling by writing *seeded defects* for a Rust project.
 
 You have your own scratch git worktree of the project doyoubi/undermoon (a Redis Cluster proxy system: RESP proxy with slot routing and live slot migration, an in-memory metadata broker, a coordinator) at /tmp/mut/{name}. Work ONLY inside that directory (and /tmp for scratch files you create yourself). Do not read or touch /verif or /repo or any other directory: what you write must be independent of any existing verification machinery. There is no network. A warm build cache is in /tmp/mut/{name}/target; build and test with `cd /tmp/mut/{name} && CARGO_NET_OFFLINE=true cargo test --workspace --no-fail-fast --offline` (the 146 existing tests must all still pass; a full run takes a few minutes; use `cargo test --offline <filter>` while iterating).
